@@ -1,10 +1,49 @@
-(* Property C09 — ParseNDStream delivers the same documents however the reader fragments
-   Statement-level file; see DESIGN.md §6 C09.  Model-level theorems are under
-   proof in Proofs/ (see obligations.json); this file carries the tie
-   obligations and what is proved so far; the property is decided on every run
-   by the correspondence described in DESIGN.md. *)
-From SJ Require Import Model.Base Model.RefTables Spec.Json Model.Tape Model.Iter Model.Serialize Model.FloatFmt Model.Marshal Tie.GoTablesTie Tie.SerializeTie.
-Open Scope N_scope.
-Theorem C09_tie_chunk_size : gen.Consts.gen_tmpSize = 10485760.
+(* Property C09 — ParseNDStream delivers the same documents however the reader
+   fragments.  Theorems about Model/Stream.v: the producer loop over an
+   arbitrary fragmentation oracle and an optional reader failure, and the
+   in-order forwarder under every interleaving. *)
+From SJ Require Import Model.Base Spec.Json Model.Stream Proofs.StreamProofs Tie.GoTablesTie Tie.SerializeTie.
+
+(* every chunk but the last ends at a line end; none is empty *)
+Theorem C09_chunks_end_at_lines : forall sizes fail_at stream cs e,
+  chunks sizes fail_at stream = (cs, e) ->
+  Forall (fun c => ends_lf c = true) (removelast cs) /\ Forall (fun c => c <> []) cs /\
+  (fail_at <> None -> Forall (fun c => ends_lf c = true) cs).
+Proof. exact chunk_ends_at_line. Qed.
+
+(* for a well-formed stream and EVERY fragmentation: the stream ends with EOF
+   and the documents of the delivered (non-blank) chunks, in order, are exactly
+   the stream's documents *)
+Theorem C09_stream_docs : forall stream ds sizes cs e,
+  nd_spec stream = SOk ds -> chunks sizes None stream = (cs, e) ->
+  e = FEOF /\
+  exists dss, Forall2 (fun c d => nd_spec c = SOk d) (delivered cs) dss /\
+              Forall (fun d => d <> []) dss /\ concat dss = ds.
+Proof. exact stream_docs. Qed.
+
+(* with a reader failure after k bytes: the error ends the stream and the
+   delivered documents are a prefix of the true sequence *)
+Theorem C09_prefix_on_error : forall stream ds sizes k cs e,
+  nd_spec stream = SOk ds -> chunks sizes (Some k) stream = (cs, e) ->
+  e = FErr /\
+  exists dss, Forall2 (fun c d => nd_spec c = SOk d) (delivered cs) dss /\
+              exists rest, ds = concat dss ++ rest.
+Proof. exact stream_docs_fail. Qed.
+
+(* the forwarder: whatever the completion order of the chunk parsers, what has
+   been delivered is a prefix of the queue's results in queue order; after the
+   error cell nothing more that blocks; when all cells are through, everything *)
+Definition C09_forwarder_in_order := forwarder_in_order.
+Theorem C09_forwarder_complete : forall (R : Type) (is_err : R -> bool) results evs (s : fwd R) vals e,
+  results = vals ++ [e] -> forallb (noerr R is_err) vals = true -> is_err e = true ->
+  frun R is_err results finit evs = Some s -> next s = length results -> out s = results.
+Proof. exact forwarder_complete_exact. Qed.
+Definition C09_forwarder_progress := forwarder_progress.
+Definition C09_forwarder_terminates := forwarder_terminates.
+
+Theorem C09_tie_chunk_size : gen.Consts.gen_tmpSize = 10485760%N.
 Proof. exact tie_stream_chunk. Qed.
-Print Assumptions C09_tie_chunk_size.
+
+Print Assumptions C09_stream_docs.
+Print Assumptions C09_prefix_on_error.
+Print Assumptions C09_forwarder_complete.
